@@ -253,6 +253,7 @@ impl Scenario for Replicas {
             _ => {
                 let mut p = OrdSeq.generate(rng, Tier::Quick, target);
                 p.perms.clear();
+                p.between_calls = 0;
                 Job::O(p)
             }
         };
